@@ -1,6 +1,6 @@
 (* C18 -- Every enumerated keyword maps back to the value that printed it. *)
 From Coq Require Import Strings.String.
-From Coq Require Import List ZArith Bool.
+From Coq Require Import List ZArith NArith Bool Lia.
 From Coq Require Import Strings.Byte.
 From LLIR Require Import Lib.Bytes Gen.Enums Gen.Printers Model.GoEval.
 From LLIR Require Import Proofs.EnumProofs Proofs.CallingConvProofs.
@@ -40,3 +40,49 @@ Proof. exact print_cc_examples. Qed.
 (* known finding KF-31: cc 1 and cc 0 are read as one value, which is printed ccc *)
 Theorem C18_cc1_is_read_as_ccc_refuted : parse_cc 1 = parse_cc 0.
 Proof. exact cc1_is_read_as_ccc. Qed.
+
+(* ---- flag sets print as exactly the set of their members (unbounded: every subset) ---- *)
+From LLIR Require Import Model.FlagSets Proofs.FlagSetProofs.
+Local Open Scope N_scope.
+
+Lemma in_all_enums_DISPFlag : In DISPFlag_tables all_enums. Proof. unfold all_enums. repeat (first [left; reflexivity | right]). Qed.
+Lemma in_all_enums_AllocKind : In AllocKind_tables all_enums. Proof. unfold all_enums. repeat (first [left; reflexivity | right]). Qed.
+Lemma in_all_enums_DIFlag : In DIFlag_tables all_enums. Proof. unfold all_enums. repeat (first [left; reflexivity | right]). Qed.
+
+(* the members of each flag type, read off the regenerated tables (the domain of the statements) *)
+Example C18_flag_members :
+  named_bits DISPFlag_tables 0 11 = [0; 1; 2; 3; 4; 5; 6; 7; 8; 9; 11]%nat
+  /\ named_bits AllocKind_tables 0 5 = [0; 1; 2; 3; 4; 5]%nat
+  /\ named_bits DIFlag_tables 2 29 = [2; 3; 4; 5; 6; 7; 8; 9; 10; 11; 12; 13; 14; 15; 16; 17; 18; 19; 20; 22; 23; 24; 25; 26; 27; 28; 29]%nat.
+Proof. vm_compute. repeat split. Qed.
+
+(* DISPFlag (dispFlagsString walks the masks 1<<0 .. 1<<11 after fix c0585b0; irDISPFlags ORs the
+   keyword values): for EVERY subset of the members the printed keywords are exactly the members that
+   are set, and reading them back gives the flag value *)
+Theorem C18_dispflag_sets_round_trip : forall flags,
+  N.land flags (union (map mask_of (named_bits DISPFlag_tables 0 11))) = flags ->
+  exists ss, print_all DISPFlag_tables (members flags (bit_range 0 11)) = Some ss
+             /\ read_all DISPFlag_tables ss = Some flags
+             /\ (forall v, In v (members flags (bit_range 0 11)) <->
+                           exists k, In k (named_bits DISPFlag_tables 0 11) /\ v = mask_of k /\ N.testbit flags (N.of_nat k) = true).
+Proof. intros flags. exact (flagset_round_trip DISPFlag_tables 0 11 flags in_all_enums_DISPFlag). Qed.
+Theorem C18_allockind_sets_round_trip : forall flags,
+  N.land flags (union (map mask_of (named_bits AllocKind_tables 0 5))) = flags ->
+  exists ss, print_all AllocKind_tables (members flags (bit_range 0 5)) = Some ss
+             /\ read_all AllocKind_tables ss = Some flags
+             /\ (forall v, In v (members flags (bit_range 0 5)) <->
+                           exists k, In k (named_bits AllocKind_tables 0 5) /\ v = mask_of k /\ N.testbit flags (N.of_nat k) = true).
+Proof. intros flags. exact (flagset_round_trip AllocKind_tables 0 5 flags in_all_enums_AllocKind). Qed.
+(* DIFlag: the accessibility field (bits 0-1, three keywords) first, then the masks 1<<2 .. 1<<29 *)
+Theorem C18_diflag_sets_round_trip : forall flags,
+  N.land flags (N.lor 3 (union (map mask_of (named_bits DIFlag_tables 2 29)))) = flags ->
+  exists ss, print_all DIFlag_tables (di_members flags (bit_range 2 29)) = Some ss /\ read_all DIFlag_tables ss = Some flags.
+Proof.
+  intros flags. apply di_flagset_round_trip; [apply le_n| |exact in_all_enums_DIFlag].
+  intros a Ha. assert (a = 1 \/ a = 2 \/ a = 3) as [->|[->| ->]] by lia; reflexivity.
+Qed.
+Example C18_flagset_example :
+  print_all DISPFlag_tables (members 520 (bit_range 0 11)) =
+    Some [bytes_of_string "DISPFlagDefinition"; bytes_of_string "DISPFlagDeleted"]
+  /\ read_all DISPFlag_tables [bytes_of_string "DISPFlagDefinition"; bytes_of_string "DISPFlagDeleted"] = Some 520.
+Proof. vm_compute. split; reflexivity. Qed.
